@@ -80,15 +80,15 @@ theorem closed_roundtrip (oe : Bool) (d : Definition) (f : Nat) (rest : List Tok
 
 /-- the decomposition is the one the reference parser finds: every definition is closed, or what follows it is the
     end of the list, a description or a definition keyword (i.e. not a shorthand query) -/
-def FollowOk : List Item → Prop
+def ItemsFollowOk : List Item → Prop
   | [] => True
-  | i :: r => (closed i.2 = true ∨ defFollow (itemsToks r) = true) ∧ FollowOk r
+  | i :: r => (closed i.2 = true ∨ defFollow (itemsToks r) = true) ∧ ItemsFollowOk r
 
 theorem itemsToks_cons (i : Item) (r : List Item) : itemsToks (i :: r) = tDefinition i.1 i.2 ++ itemsToks r := by
   simp [itemsToks]
 
 theorem items_roundtrip : ∀ (its : List Item) (f : Nat), (∀ i ∈ its, wfDefinition i.2 = true) →
-    szDefinitions (its.map (·.2)) ≤ f → FollowOk its → pDefinitions f (itemsToks its) = some (its.map (·.2))
+    szDefinitions (its.map (·.2)) ≤ f → ItemsFollowOk its → pDefinitions f (itemsToks its) = some (its.map (·.2))
   | [], f + 1, _, _, _ => by simp [itemsToks, pDefinitions]
   | i :: r, f + 1, h, hs, hf => by
       simp only [List.map_cons, szDefinitions] at hs
@@ -105,7 +105,7 @@ theorem items_roundtrip : ∀ (its : List Item) (f : Nat), (∀ i ∈ its, wfDef
 /-- **the reference parser agrees**: on the tokens of a document written as the items `its`, `pDocument` returns
     exactly the definitions of `its` -/
 theorem items_document_roundtrip (its : List Item) (f : Nat) (hne : its ≠ []) (h : ∀ i ∈ its, wfDefinition i.2 = true)
-    (hs : szDefinitions (its.map (·.2)) ≤ f) (hf : FollowOk its) :
+    (hs : szDefinitions (its.map (·.2)) ≤ f) (hf : ItemsFollowOk its) :
     pDocument f (itemsToks its) = some (its.map (·.2)) := by
   have := items_roundtrip its f h hs hf
   unfold pDocument
@@ -114,15 +114,15 @@ theorem items_document_roundtrip (its : List Item) (f : Nat) (hne : its ≠ []) 
   | nil => exact absurd rfl hne
   | cons i r => rfl
 
-/-- executable documents (operations and fragments only) satisfy `FollowOk` in every decomposition -/
-theorem followOk_of_closed : ∀ (its : List Item), (∀ i ∈ its, closed i.2 = true) → FollowOk its
+/-- executable documents (operations and fragments only) satisfy `ItemsFollowOk` in every decomposition -/
+theorem itemsFollowOk_of_closed : ∀ (its : List Item), (∀ i ∈ its, closed i.2 = true) → ItemsFollowOk its
   | [], _ => trivial
-  | i :: r, h => ⟨Or.inl (h i (by simp)), followOk_of_closed r (fun j hj => h j (by simp [hj]))⟩
+  | i :: r, h => ⟨Or.inl (h i (by simp)), itemsFollowOk_of_closed r (fun j hj => h j (by simp [hj]))⟩
 
 /-- so does the shape the serializer produces (shorthand only in front) -/
 theorem followOk_tDocument (oe : Bool) (d : Definition) (r : List Definition) :
-    FollowOk ((oe, d) :: r.map (fun d => (false, d))) := by
-  have key : ∀ r : List Definition, FollowOk (r.map (fun d => ((false, d) : Item))) ∧
+    ItemsFollowOk ((oe, d) :: r.map (fun d => (false, d))) := by
+  have key : ∀ r : List Definition, ItemsFollowOk (r.map (fun d => ((false, d) : Item))) ∧
       defFollow (itemsToks (r.map (fun d => ((false, d) : Item)))) = true := by
     intro r
     induction r with
@@ -235,14 +235,14 @@ theorem isDocumentToks_accepted (x : List Ast.Tok) (h : IsDocumentToks x) : IsAc
     end-of-input token.  Moreover, when `its` uses neither of the two liberties (`strictItems its = some items`), the
     tokens are `Ast.itemsToks items` — every definition printed by C08's `tDefinition`, in the long or shorthand form —
     and C08's reference parser `pDocument` returns exactly the definitions of `items` (given their well-formedness,
-    which the per-production lemmas do not export, and `FollowOk`). -/
+    which the per-production lemmas do not export, and `ItemsFollowOk`). -/
 theorem document_accepted_items (rl : Nat) (src : Str) (root : Elem)
     (h : (parse .document none rl src).outcome = .tree root) (herr : (parse .document none rl src).errors = []) :
     LexClean src ∧ ∃ (ts : List Tok) (e : Tok) (its : List DocItem), sig (srcToks src) = ts ++ [e] ∧ e.kind = .eof ∧
       its ≠ [] ∧ (∀ i ∈ its, i.ok) ∧ TokIs ts (docToks its) ∧
       ∀ items, strictItems its = some items →
         items ≠ [] ∧ docToks its = Ast.itemsToks items ∧
-        ((∀ i ∈ items, Ast.wfDefinition i.2 = true) → Ast.FollowOk items → ∀ f, Ast.szDefinitions (items.map (·.2)) ≤ f →
+        ((∀ i ∈ items, Ast.wfDefinition i.2 = true) → Ast.ItemsFollowOk items → ∀ f, Ast.szDefinitions (items.map (·.2)) ≤ f →
           Ast.pDocument f (Ast.itemsToks items) = some (items.map (·.2))) := by
   obtain ⟨hl, ts, x, e, h1, h2, h3, h4⟩ := document_accept_sound' rl src root h herr
   obtain ⟨its, hne, hok, rfl⟩ := isDocumentToks_accepted x h4
